@@ -717,6 +717,29 @@ def _install_buggify(node: Any) -> None:
 
     ma.prune_options = prune_options  # type: ignore
 
+    orig_next = ma.next_match
+    from sqlfluff.core.parser.match_result import MatchResult
+
+    def next_match(segments: Any, idx: int, matchers: Any, parse_context: Any):
+        """Brute force: what the simple raw/type maps approximate — at every
+        index try every matcher in priority order, first clean match wins."""
+        r = _BUG["cfg"].get("next_off", 0)
+        if not (r and (r >= 1 or _BUG["rng"].random() < r)):
+            return orig_next(segments, idx, matchers, parse_context)
+        st = _BUG["stats"]
+        st["next_match_bruteforce"] += 1
+        max_idx = len(segments)
+        if idx >= max_idx:
+            return MatchResult.empty_at(idx), None
+        for _idx in range(idx, max_idx):
+            for m in matchers:
+                _match = m.match(segments, _idx, parse_context)
+                if _match:
+                    return _match, m
+        return MatchResult.empty_at(idx), None
+
+    ma.next_match = next_match  # type: ignore
+
 
 def _tree_sig(seg: Any, out: list, depth: int = 0) -> None:
     pm = seg.pos_marker
